@@ -31,6 +31,7 @@ type View struct {
 	FuncSha    map[string]string   `json:"funcSha"`   // name -> sha256 of the function's source text
 	Schemas    map[string]J        `json:"schemas"`   // root name -> attribute tree
 	HookCalls  map[string][]string `json:"hookCalls"` // function name -> printed custom hook call expressions
+	ObjWrites  map[string][]string `json:"objWrites"` // function name -> printed left-hand sides `obj.…` of assignments, in order
 	DiagPaths  map[string][]string `json:"diagPaths"` // function name -> path literals of diagnostics
 	Imports    map[string]string   `json:"imports"`   // alias -> path
 	Sha        string              `json:"sha"`
@@ -49,7 +50,7 @@ func sha(s string) string {
 
 // Parse builds the view. license is the expected header.
 func Parse(src string, license string) *View {
-	v := &View{Sigs: map[string]string{}, FuncSha: map[string]string{}, Schemas: map[string]J{}, HookCalls: map[string][]string{},
+	v := &View{Sigs: map[string]string{}, FuncSha: map[string]string{}, Schemas: map[string]J{}, HookCalls: map[string][]string{}, ObjWrites: map[string][]string{},
 		DiagPaths: map[string][]string{}, Imports: map[string]string{}, Sha: sha(src), Funcs: []string{}, Methods: []string{}, Types: []string{}}
 	v.HeaderOK = strings.HasPrefix(src, license)
 	fset := token.NewFileSet()
@@ -98,6 +99,12 @@ func Parse(src string, license string) *View {
 							s = id.Name + "(" + pr(fset, c.Args[0]) + ", …)"
 						}
 						v.HookCalls[name] = append(v.HookCalls[name], s)
+					}
+				case *ast.AssignStmt:
+					for _, l := range c.Lhs {
+						if ls := pr(fset, l); strings.HasPrefix(ls, "obj.") {
+							v.ObjWrites[name] = append(v.ObjWrites[name], ls)
+						}
 					}
 				case *ast.CompositeLit:
 					if id, ok := c.Type.(*ast.Ident); ok && strings.HasPrefix(id.Name, "attr") && len(c.Elts) > 0 {
